@@ -40,6 +40,7 @@ def run(chk: Check, proj: Project) -> None:
     s4(chk, proj, m)
     s5_css_forms(chk, proj, m)
     s6_defined_is_not_none(chk, proj, m)
+    s7_declared_collections_not_mutated(chk, proj, m)
 
 
 def s5_css_forms(chk: Check, proj: Project, m) -> None:
@@ -475,6 +476,34 @@ def s6_defined_is_not_none(chk: Check, proj: Project, m) -> None:
         chk.ob("S6", f"component_media:_get_asset:{short(r, 40)}:none-only-for-undefined", m.loc(r), ok,
                "this return does not turn a defined (possibly empty) asset into None" if ok else
                f"`{short(r)}` under `{short(bad[0]) if bad else short(r.value)}` reports a DEFINED but blank asset as not defined: a subclass that sets `js = \"\"` to switch its parent's script off looks like it defines neither member of the pair, the MRO walk skips it, and the subclass (and the page) carries the parent's JS / CSS")
+
+
+def s7_declared_collections_not_mutated(chk: Check, proj: Project, m) -> None:
+    chk.rule("S7", "a class's Media is computed from what THAT class declares: the normalisers bind fresh collections to `media.js` / `media.css` and never write INTO the list / dict the user declared (`media.css[k] = ..`, `media.js[:] = ..`, `.append`) - a collection constant shared by two component classes (`COMMON_CSS = {'all': ['widget.css']}`) is otherwise rewritten by the first class that resolves its relative paths, and the other class's `.media` changes with the order of access")
+    MUT = {"append", "extend", "insert", "update", "setdefault", "pop", "remove", "clear", "sort", "reverse", "__setitem__"}
+    n_bind = 0
+    for q, f in sorted(m.defs.items()):
+        if not isinstance(f, ast.FunctionDef):
+            continue
+        ps = [a.arg for a in f.args.args]
+        if not ps or ps[0] != "media" and not any("ComponentMediaInput" in norm(a.annotation) for a in f.args.args if a.annotation is not None):
+            continue
+        mp = next((a.arg for a in f.args.args if a.annotation is not None and "ComponentMediaInput" in norm(a.annotation)), ps[0])
+        bad = []
+        for x in ast.walk(f):
+            if isinstance(x, (ast.Assign, ast.AugAssign)):
+                for t in (x.targets if isinstance(x, ast.Assign) else [x.target]):
+                    if isinstance(t, ast.Attribute) and isinstance(t.value, ast.Name) and t.value.id == mp and t.attr in ("js", "css"):
+                        n_bind += 1
+                    if isinstance(t, ast.Subscript) and isinstance(t.value, ast.Attribute) and isinstance(t.value.value, ast.Name) and t.value.value.id == mp and t.value.attr in ("js", "css"):
+                        bad.append(x)
+            elif isinstance(x, ast.Call) and isinstance(x.func, ast.Attribute) and x.func.attr in MUT and isinstance(x.func.value, ast.Attribute) and isinstance(x.func.value.value, ast.Name) and x.func.value.value.id == mp and x.func.value.attr in ("js", "css"):
+                bad.append(x)
+        chk.analysed(f"{m.name}:{q}")
+        chk.ob("S7", f"component_media:{q}:binds-fresh-collections", m.loc(bad[0]) if bad else m.loc(f), not bad,
+               f"{q} only rebinds `{mp}.js` / `{mp}.css`" if not bad else
+               f"`{short(bad[0])}` writes into the collection object the user declared: two component classes in different directories that share one constant see each other's rewrite - after `Alpha.media` resolved `widget.css` against Alpha's directory, `Beta.media` (already computed as ['widget.css']) reads ['alpha_pkg/widget.css'] and the page links the other component's file")
+    chk.floor("S7", n_bind, 4)
 
 
 MANIFEST = {
